@@ -167,6 +167,8 @@ def run_joins(res, tier, want):
 def check_joins(prop, tier, replay):
     res = vlib.Result(prop, tier, "model_checking")
     mgen, mdist, mnames = vlib.model_check_all([("Join", "Join.cfg")])
+    # unbounded counterpart (any sources, destinations, selection relation, number of changes) of Quiescent / ReadyAfterBoth / EmptyBeforeReady
+    mnames = mnames + [vlib.prove("JoinProofs")]
     st = run_joins(res, tier, JOIN_CLASSES)
     lines, snaps, joins, samples = st["lines"], st["snaps"], st["joins"], st["samples"]
     per, nproc = st["scenarios"], 1
